@@ -28,6 +28,14 @@ Fixpoint seqb (a b : str) : bool :=
 
 (* ---- configuration read from the source ---- *)
 Inductive loop_shape := LastWins | FirstWins.
+(* the matcher of Rule::matches, as the translator finds it in the source:
+   MWildcardIter : wildcardMatch(pattern, text), the iterative two-pointer glob (indices p, t, position of
+                   the most recent wildcard, text position it was last tried at), no regular expression;
+   MRegexWhole   : QRegularExpression::escape, "\\*" -> ".*", "\\A" + .. + "\\z" with DotMatchesEverythingOption
+                   (whole-name match through PCRE2; the code before the match-limit repair);
+   MRegexLine    : the same with "^" + .. + "$" and no option: '.' excludes LF and '$' also matches before a
+                   final LF (the code before the LF repair) *)
+Inductive matcher_kind := MWildcardIter | MRegexWhole | MRegexLine.
 Record cat_cfg := {
   sep_from : N;                        (* rules.replace(";", "\n") : the character replaced ... *)
   sep_to : N;                          (* ... and its replacement *)
@@ -35,9 +43,7 @@ Record cat_cfg := {
   suffixes : list (str * mtype);       (* alternatives of the suffix group, each with its QtMsgType *)
   values : list (str * bool);          (* alternatives of the value group, each with captured(3) == "true" *)
   star : N;                            (* category.replace("\\*", ".*") : the wildcard character *)
-  line_anchors : bool;                 (* false: "\\A" + category + "\\z" with DotMatchesEverythingOption
-                                          (whole-name match); true: "^" + category + "$" without the
-                                          option: '.' excludes LF and '$' also matches before a final LF *)
+  matcher : matcher_kind;              (* how Rule::matches decides "pattern matches category" *)
   default_verdict : bool;              (* bool enabled = true; in filter() *)
   shape : loop_shape                   (* whether the loop goes on after a matching rule *)
 }.
@@ -121,7 +127,8 @@ Fixpoint glob (st : N) (p s : str) {struct p} : bool :=
       (fix try (s : str) : bool := glob st p' s || match s with [] => false | _ :: s' => try s' end) s
     else match s with x :: s' => (x =? c) && glob st p' s' | [] => false end
   end.
-(* the same under PCRE2's default line semantics ("^...$", no DotMatchesEverything): ".*" does not
+(* the matching of the regular-expression forms (MRegexWhole = [glob] above, PCRE2 limits not modelled);
+   MRegexLine: the same under PCRE2's default line semantics ("^...$", no DotMatchesEverything): ".*" does not
    cross LF and the end anchor also matches before a final LF.  Only used when the translator finds
    that form in the source (it is the pre-repair code); no theorem is about it. *)
 Fixpoint glob_line (st : N) (p s : str) {struct p} : bool :=
@@ -133,19 +140,66 @@ Fixpoint glob_line (st : N) (p s : str) {struct p} : bool :=
          glob_line st p' s || match s with [] => false | x :: s' => negb (x =? 10) && try s' end) s
     else match s with x :: s' => (x =? c) && glob_line st p' s' | [] => false end
   end.
-(* Rule::matches: category.match(..).hasMatch() && (!typeMatch || type == messageType) *)
-Definition rule_matches (la : bool) (st : N) (r : rule) (cat : str) (t : mtype) : bool :=
-  (if la then glob_line st (pat r) cat else glob st (pat r) cat)
+(* ---- wildcardMatch(pattern, text): the iterative matcher, transcribed statement by statement.
+   The indices p and t are represented by the remaining pattern [pr] and the remaining text [tr];
+   (star, mark) by [Some (pattern after the wildcard, text from mark)], star = -1 by [None].
+     while (t < text.size()) {
+       if (p < pattern.size() && pattern.at(p) == STAR)           { star = p++; mark = t; }
+       else if (p < pattern.size() && pattern.at(p) == text.at(t)) { ++p; ++t; }
+       else if (star >= 0)                                         { p = star + 1; t = ++mark; }
+       else return false;
+     }
+     while (p < pattern.size() && pattern.at(p) == STAR) ++p;
+     return p == pattern.size();
+   One unit of fuel per loop iteration; [None] = fuel exhausted (proved impossible for the fuel of
+   [glob_iter]). *)
+Fixpoint drop_stars (st : N) (p : str) : str :=
+  match p with c :: r => if c =? st then drop_stars st r else p | [] => [] end.
+Fixpoint glob_iter_run (st : N) (fuel : nat) (pr tr : str) (star : option (str * str)) : option bool :=
+  match fuel with
+  | O => None
+  | S f =>
+    match tr with
+    | [] => Some (match drop_stars st pr with [] => true | _ => false end)
+    | x :: tr' =>
+      let backtrack :=
+        match star with
+        | Some (sp, mt) => let mt' := tl mt in glob_iter_run st f sp mt' (Some (sp, mt'))
+        | None => Some false
+        end in
+      match pr with
+      | c :: pr' =>
+        if c =? st then glob_iter_run st f pr' tr (Some (pr', tr))
+        else if c =? x then glob_iter_run st f pr' tr' star
+        else backtrack
+      | [] => backtrack
+      end
+    end
+  end.
+Definition glob_fuel (p s : str) : nat := ((length s + 2) * (length p + 1))%nat.
+Definition glob_iter (st : N) (p s : str) : option bool := glob_iter_run st (glob_fuel p s) p s None.
+Definition iter_match (st : N) (p s : str) : bool :=
+  match glob_iter st p s with Some b => b | None => false end.
+
+(* Rule::matches: <pattern matches category> && (!typeMatch || type == messageType) *)
+Definition pattern_matches (mk : matcher_kind) (st : N) (p cat : str) : bool :=
+  match mk with
+  | MWildcardIter => iter_match st p cat
+  | MRegexWhole => iter_match st p cat   (* = glob st p cat (CategoryProofs.iter_match_glob), without its exponential cases *)
+  | MRegexLine => glob_line st p cat
+  end.
+Definition rule_matches (mk : matcher_kind) (st : N) (r : rule) (cat : str) (t : mtype) : bool :=
+  pattern_matches mk st (pat r) cat
   && match rtype r with None => true | Some t' => mtype_eqb t' t end.
 
 (* ---- filter(): the decision loop ---- *)
-Definition decide (sh : loop_shape) (dflt la : bool) (st : N) (rs : list rule) (cat : str) (t : mtype) : bool :=
+Definition decide (sh : loop_shape) (dflt : bool) (la : matcher_kind) (st : N) (rs : list rule) (cat : str) (t : mtype) : bool :=
   match sh with
   | LastWins => fold_left (fun en r => if rule_matches la st r cat t then enabled r else en) rs dflt
   | FirstWins => match find (fun r => rule_matches la st r cat t) rs with Some r => enabled r | None => dflt end
   end.
 Definition filter_rules (cfg : cat_cfg) (rs : list rule) (cat : str) (t : mtype) : bool :=
-  decide (shape cfg) (default_verdict cfg) (line_anchors cfg) (star cfg) rs cat t.
+  decide (shape cfg) (default_verdict cfg) (matcher cfg) (star cfg) rs cat t.
 (* CategoryFilter(rules).filter(message with this category and type) *)
 Definition category_filter (cfg : cat_cfg) (rules cat : str) (t : mtype) : bool :=
   filter_rules cfg (parse_rules cfg rules) cat t.
@@ -161,13 +215,13 @@ Definition std_cfg : cat_cfg := {|
   sep_from := 59; sep_to := 10; split_ch := 10;
   suffixes := [(s_debug, Debug); (s_info, Info); (s_warning, Warning); (s_critical, Critical)];
   values := [(s_true, true); (s_false, false)];
-  star := 42; line_anchors := false; default_verdict := true; shape := LastWins |}.
+  star := 42; matcher := MWildcardIter; default_verdict := true; shape := LastWins |}.
 
 (* rules are separated by ';' or newline — split directly at either *)
 Definition is_sep (c : N) : bool := (c =? 59) || (c =? 10).
 Definition spec_lines (s : str) : list str := filter nonempty (split_on is_sep s).
 Definition spec_rules (s : str) : list rule := parse_lines std_cfg (spec_lines s).
-Definition spec_matches (c : str) (t : mtype) (r : rule) : bool := rule_matches false 42 r c t.
+Definition spec_matches (c : str) (t : mtype) (r : rule) : bool := rule_matches MWildcardIter 42 r c t.
 (* the LAST rule that matches decides; a message no rule matches passes *)
 Definition spec_decision (rs : list rule) (c : str) (t : mtype) : bool :=
   match find (spec_matches c t) (rev rs) with Some r => enabled r | None => true end.
@@ -186,15 +240,17 @@ Fixpoint list_eqb {A} (eq : A -> A -> bool) (a b : list A) : bool :=
   end.
 Definition shape_eqb (a b : loop_shape) : bool :=
   match a, b with LastWins, LastWins | FirstWins, FirstWins => true | _, _ => false end.
+Definition matcher_eqb (a b : matcher_kind) : bool :=
+  match a, b with MWildcardIter, MWildcardIter | MRegexWhole, MRegexWhole | MRegexLine, MRegexLine => true | _, _ => false end.
 Definition cfg_eqb (a b : cat_cfg) : bool :=
   (sep_from a =? sep_from b) && (sep_to a =? sep_to b) && (split_ch a =? split_ch b)
   && list_eqb (fun x y => seqb (fst x) (fst y) && mtype_eqb (snd x) (snd y)) (suffixes a) (suffixes b)
   && list_eqb (fun x y => seqb (fst x) (fst y) && Bool.eqb (snd x) (snd y)) (values a) (values b)
-  && (star a =? star b) && Bool.eqb (line_anchors a) (line_anchors b) && Bool.eqb (default_verdict a) (default_verdict b) && shape_eqb (shape a) (shape b).
+  && (star a =? star b) && matcher_eqb (matcher a) (matcher b) && Bool.eqb (default_verdict a) (default_verdict b) && shape_eqb (shape a) (shape b).
 Definition cfg_goodb (c : cat_cfg) : bool := cfg_eqb c std_cfg.
 (* the pre-repair matching semantics with otherwise the same constants (used by the check only to
    classify a failing input as the LF defect) *)
 Definition with_line_anchors (c : cat_cfg) : cat_cfg :=
   {| sep_from := sep_from c; sep_to := sep_to c; split_ch := split_ch c; suffixes := suffixes c;
-     values := values c; star := star c; line_anchors := true; default_verdict := default_verdict c;
+     values := values c; star := star c; matcher := MRegexLine; default_verdict := default_verdict c;
      shape := shape c |}.
